@@ -49,3 +49,7 @@ add("C05", "SEQ", "model_checking", "explicit-state BFS over push/delete/time/co
 add("C06", "SEQ", "model_checking", "explicit-state BFS over push/delete/settle histories with the real ticker goroutine on a virtual clock; all visit orders of a pass via the map-iteration seam",
     "Part A: all histories up to the depth bound over an object-graph universe for the five documented policy combinations x grace/tick settings on both stores; after a regular pass (idle, and with read traffic that keeps the repository in the cache) exactly the model's retained set is served, no index entry lacks content, empty repositories are removed and a second pass changes nothing. Part B: three repositories of kinds healthy / never written / corrupt / removed from disk collected in all 6 visit orders; every healthy repository must reach the result it reaches alone.",
     TRUSTED, "DESIGN.md section 4 C06")
+
+add("C10", "SEQ", "model_checking", "explicit-state BFS over step-by-step histories on the directory store with three differential oracles (memory store mirror, memory-over-directory, restart) and a layout validator",
+    "All histories up to the depth bound of step-by-step pushes (three digest algorithms), deletes, collection ticks at any point, cache expiry and restarts over repositories r, r/n and s, with a frozen clock and with 2 s per request; every request is mirrored to a memory store. In every distinct state each repository directory is validated as an OCI layout equal to the API state, and the read transcript is compared with the memory store, with a memory store layered over the directory, and with the directory store itself after Close + reopen.",
+    TRUSTED, "DESIGN.md section 4 C10")
